@@ -32,7 +32,7 @@ KIND = {"base": 0, "combine": 1, "cut": 2}
 
 
 def applies(case):
-    return case.get("kind") == "ham" and case.get("method") == "BIPARTITE"
+    return case.get("kind") == "ham" and case.get("method") == "BIPARTITE" and not case.get("notie")
 
 
 @contextlib.contextmanager
@@ -122,6 +122,19 @@ def observed_canons(ob, ncalls):
     return out
 
 
+def eval_spread(ctx, imports, exprs, shard, scope):
+    """coq_eval with the expressions dealt round-robin to the shards (coq_eval cuts the list into contiguous chunks that
+    are evaluated side by side: a block of expensive cases generated one after the other would all land in one chunk)"""
+    n = len(exprs)
+    k = max(1, -(-n // shard))
+    order = [i for r in range(k) for i in range(r, n, k)]
+    vals = coq_eval(ctx, imports, [exprs[i] for i in order], shard=max(1, -(-n // k)), scope=scope)
+    out = [None] * n
+    for i, v in zip(order, vals):
+        out[i] = v
+    return out
+
+
 def run_model(ctx, cases, obs):
     """evaluates the model's trace against the recorded steps; stores ob['c01d_model'] = (padded?, verdicts, trace length,
     step checks, final sd_check) for every BIPARTITE case"""
@@ -140,7 +153,7 @@ def run_model(ctx, cases, obs):
             f"match from_hamiltonian_bipartite t H with Some d => Some (sd_check t H d) | None => None end) "
             f"| None => (false, [], 0, [], None) end)")
         idx.append(i)
-    vals = coq_eval(ctx, IMPORTS, exprs, shard=25, scope="nat_scope")
+    vals = eval_spread(ctx, IMPORTS, exprs, shard=25, scope="nat_scope")
     for i, v in zip(idx, vals):
         obs[i]["c01d_model"] = v if not isinstance(v, BaseException) else {"error": str(v)[:800]}
     return len(idx)
